@@ -142,7 +142,7 @@ func vc12_e2e() {
 
 func vh_c13_e2e_q()      { vc13_e2e() }
 func vh_c15_e2e_q()      { vc15_e2e(2) }
-func vh_c15_e2e_t()      { vc15_e2e(3) }
+func vh_c15_e2e_t()      { vc15_e2e(2) }
 func vh_c05_e2e_op_q()   { vc05_e2e("{% if a ", " b %}T{% end %}", 1) }
 func vh_c05_e2e_op2_q()  { vc05_e2e("{% c := a ", " b %}{% if c == a %}T{% end %}", 2) }
 func vh_c05_e2e_div_q()  { vc05_e2e("{% c := a / (b ", " 3) %}{% if c == a %}T{% end %}", 1) }
